@@ -382,4 +382,240 @@ theorem runFrom_ok : ∀ (ops : List (Op α)) (r : Rng α), Inv r → Safe r ops
 theorem run_ok (ops : List (Op α)) (hs : Safe empty ops) : ∃ r, run ops = .ok r ∧ Inv r :=
   runFrom_ok ops empty inv_empty hs
 
+/-! ## read accessors and iterators -/
+
+/-- `start`, `end`, `height`, `width`, `is_empty` are consistent with each other -/
+theorem bounds_agree (r : Rng α) (hi : Inv r) :
+    (r.isEmpty = true ↔ r.inner.length = 0) ∧
+    (r.inner.length = 0 → r.start = none ∧ r.end_ = none ∧ r.height = 0 ∧ r.width = 0) ∧
+    (r.inner.length ≠ 0 → r.start = some (r.sr, r.sc) ∧ r.end_ = some (r.er, r.ec) ∧
+      r.sr ≤ r.er ∧ r.sc ≤ r.ec ∧ r.height = r.er - r.sr + 1 ∧ r.width = r.ec - r.sc + 1) ∧
+    r.inner.length = r.height * r.width := by
+  refine ⟨by simp [Rng.isEmpty], fun h => ?_, fun h => ?_, hi.len⟩
+  · simp [Rng.start, Rng.end_, Rng.height, Rng.width, h]
+  · obtain ⟨a, b⟩ := hi.ord h
+    simp [Rng.start, Rng.end_, Rng.height, Rng.width, h, a, b]
+
+/-- `get` (relative position) returns the cell inside the rectangle and `None` outside -/
+theorem get_spec (r : Rng α) (hi : Inv r) (i j : Nat) :
+    get r i j = if i < r.height ∧ j < r.width then some (r.valAt (r.sr + i) (r.sc + j)) else none := by
+  unfold get
+  by_cases h : i < r.height ∧ j < r.width
+  · rw [if_neg (by omega), if_pos h]
+    have hne : r.inner.length ≠ 0 := by
+      intro h0; have : r.height = 0 := by simp [Rng.height, h0]
+      omega
+    have hh := hi.height_eq hne
+    have hw := hi.width_eq hne
+    obtain ⟨o1, o2⟩ := hi.ord hne
+    have hlt : i * r.width + j < r.inner.length := by
+      rw [hi.len]; exact mul_add_lt_mul h.2 h.1
+    rw [valAt_of_in r _ _ hne (by omega), List.getD_eq_getElem?_getD]
+    have e1 : r.sr + i - r.sr = i := by omega
+    have e2 : r.sc + j - r.sc = j := by omega
+    rw [e1, e2, List.getElem?_eq_getElem hlt]; rfl
+  · rw [if_pos (by omega), if_neg h]
+
+/-- `get_value` (absolute position) returns the cell inside the rectangle and `None` outside -/
+theorem getValue_spec (r : Rng α) (hi : Inv r) (p q : Nat) :
+    getValue r p q = if r.inner.length ≠ 0 ∧ r.sr ≤ p ∧ p ≤ r.er ∧ r.sc ≤ q ∧ q ≤ r.ec
+      then some (r.valAt p q) else none := by
+  unfold getValue
+  by_cases hin : r.sr ≤ p ∧ p ≤ r.er ∧ r.sc ≤ q ∧ q ≤ r.ec
+  · rw [if_pos (by omega), get_spec r hi]
+    by_cases hne : r.inner.length ≠ 0
+    · have hh := hi.height_eq hne
+      have hw := hi.width_eq hne
+      rw [if_pos (by omega), if_pos ⟨hne, hin⟩]
+      have e1 : r.sr + (p - r.sr) = p := by omega
+      have e2 : r.sc + (q - r.sc) = q := by omega
+      rw [e1, e2]
+    · have : r.height = 0 := by simp only [Rng.height]; rw [if_pos (by omega)]
+      rw [if_neg (by omega), if_neg (by omega)]
+  · rw [if_neg (by omega), if_neg (by omega)]
+
+/-- indexing `range[(i, j)]` returns the cell inside the rectangle and panics outside -/
+theorem index_spec (r : Rng α) (hi : Inv r) (i j : Nat) :
+    index r i j = if i < r.height ∧ j < r.width then .ok (r.valAt (r.sr + i) (r.sc + j))
+      else .panic "index out of bounds" := by
+  have hg := get_spec r hi i j
+  unfold get at hg
+  unfold index
+  by_cases h : i < r.height ∧ j < r.width
+  · rw [if_neg (by omega)] at hg; rw [if_pos h] at hg
+    rw [if_neg (by omega), if_pos h, hg]
+  · rw [if_pos (by omega), if_neg h]
+
+/-- `get`, `get_value` and indexing agree with each other -/
+theorem accessors_agree (r : Rng α) (hi : Inv r) (i j : Nat) :
+    getValue r (r.sr + i) (r.sc + j) = get r i j ∧
+    (index r i j = match get r i j with | some v => .ok v | none => .panic "index out of bounds") ∧
+    (∀ p q, getValue r p q = if r.sr ≤ p ∧ r.sc ≤ q then get r (p - r.sr) (q - r.sc) else none) := by
+  refine ⟨?_, ?_, fun p q => ?_⟩
+  · rw [getValue_spec r hi, get_spec r hi]
+    by_cases h : i < r.height ∧ j < r.width
+    · have hne : r.inner.length ≠ 0 := by
+        intro h0; have : r.height = 0 := by simp [Rng.height, h0]
+        omega
+      have hh := hi.height_eq hne
+      have hw := hi.width_eq hne
+      obtain ⟨o1, o2⟩ := hi.ord hne
+      rw [if_pos (by omega), if_pos h]
+    · rw [if_neg h]
+      by_cases hne : r.inner.length ≠ 0
+      · have hh := hi.height_eq hne
+        have hw := hi.width_eq hne
+        obtain ⟨o1, o2⟩ := hi.ord hne
+        rw [if_neg (by omega)]
+      · rw [if_neg (by omega)]
+  · rw [index_spec r hi, get_spec r hi]; split <;> rfl
+  · rw [getValue_spec r hi, get_spec r hi]
+    by_cases hne : r.inner.length ≠ 0
+    · have hh := hi.height_eq hne
+      have hw := hi.width_eq hne
+      obtain ⟨o1, o2⟩ := hi.ord hne
+      by_cases hin : r.sr ≤ p ∧ p ≤ r.er ∧ r.sc ≤ q ∧ q ≤ r.ec
+      · rw [if_pos ⟨hne, hin⟩, if_pos (by omega), if_pos (by omega)]
+        have e1 : r.sr + (p - r.sr) = p := by omega
+        have e2 : r.sc + (q - r.sc) = q := by omega
+        rw [e1, e2]
+      · rw [if_neg (by omega)]
+        split
+        · rw [if_neg (by omega)]
+        · rfl
+    · have : r.height = 0 := by simp only [Rng.height]; rw [if_pos (by omega)]
+      rw [if_neg (by omega)]
+      split
+      · rw [if_neg (by omega)]
+      · rfl
+
+/-- `rows()` yields `height` rows of `width` cells each, and cell `j` of row `i` is `get((i, j))` -/
+theorem rows_spec (r : Rng α) (hi : Inv r) :
+    (rows r).length = r.height ∧ (∀ row ∈ rows r, row.length = r.width) ∧
+    (∀ i, i < r.height → (rows r)[i]? = some ((r.inner.drop (i * r.width)).take r.width)) ∧
+    ∀ i j, (rows r)[i]?.bind (·[j]?) = get r i j := by
+  by_cases hne : r.inner.length ≠ 0
+  · have hh := hi.height_eq hne
+    have hw := hi.width_eq hne
+    have hlen := hi.len
+    have hwpos : 0 < r.width := by omega
+    have hnc : nChunks r.inner.length r.width = r.height := by rw [hlen]; exact nChunks_mul _ _ hwpos
+    have hrows : rows r = chunksN r.width r.height r.inner := by
+      unfold rows; rw [if_neg hne, hnc]
+    have hget : ∀ i, i < r.height → (rows r)[i]? = some ((r.inner.drop (i * r.width)).take r.width) :=
+      fun i h => by rw [hrows]; exact chunksN_get _ _ _ _ h
+    have hrowlen : ∀ i, i < r.height → ((r.inner.drop (i * r.width)).take r.width).length = r.width := by
+      intro i h
+      have := Nat.mul_le_mul_right r.width (Nat.succ_le_of_lt h)
+      rw [Nat.succ_mul] at this
+      rw [List.length_take, List.length_drop, hlen]; omega
+    refine ⟨by rw [hrows, chunksN_length], ?_, hget, ?_⟩
+    · intro row hrow
+      obtain ⟨i, hlt, he⟩ := List.getElem_of_mem hrow
+      have hlt' : i < r.height := by rw [hrows, chunksN_length] at hlt; exact hlt
+      have := hget i hlt'
+      rw [List.getElem?_eq_getElem hlt, he] at this
+      injection this with this
+      rw [this]; exact hrowlen i hlt'
+    · intro i j
+      unfold get
+      by_cases h : i < r.height
+      · rw [hget i h]
+        simp only [Option.bind_some]
+        rw [List.getElem?_take, List.getElem?_drop]
+        by_cases hj : j < r.width
+        · rw [if_pos hj, if_neg (by omega)]
+        · rw [if_neg hj, if_pos (by omega)]
+      · rw [List.getElem?_eq_none (by rw [hrows, chunksN_length]; omega), if_pos (by omega)]; rfl
+  · have h0 : r.inner.length = 0 := by omega
+    have hh : r.height = 0 := by simp [Rng.height, h0]
+    have hrows : rows r = [] := by unfold rows; rw [if_pos h0]
+    rw [hrows, hh]
+    refine ⟨rfl, fun _ h => (by cases h), fun i h => (by omega), fun i j => ?_⟩
+    unfold get; rw [if_pos (by omega)]; rfl
+
+/-- `cells()` enumerates exactly the `height * width` cells in row-major order with their relative
+    coordinates: entry `i` is `(i / width, i % width, inner[i])`, i.e. entry `i * width + j` is
+    `(i, j, get((i, j)))` -/
+theorem cells_spec (r : Rng α) (hi : Inv r) :
+    (cells r).length = r.height * r.width ∧
+    (∀ i, (cells r)[i]? = r.inner[i]?.map (fun v => (i / r.width, i % r.width, v))) ∧
+    ∀ i j, i < r.height → j < r.width →
+      (cells r)[i * r.width + j]? = some (i, j, r.valAt (r.sr + i) (r.sc + j)) := by
+  have hget : ∀ i, (cells r)[i]? = r.inner[i]?.map (fun v => (i / r.width, i % r.width, v)) := by
+    intro i; unfold cells; rw [cellsFrom_get, Nat.zero_add]
+  refine ⟨by unfold cells; rw [cellsFrom_length, hi.len], hget, fun i j h1 h2 => ?_⟩
+  have hg := get_spec r hi i j
+  unfold get at hg
+  rw [if_neg (by omega), if_pos ⟨h1, h2⟩] at hg
+  rw [hget, hg]
+  simp only [Option.map_some]
+  have e1 : (i * r.width + j) / r.width = i := by
+    rw [Nat.add_comm, Nat.add_mul_div_right _ _ (by omega), Nat.div_eq_of_lt h2, Nat.zero_add]
+  have e2 : (i * r.width + j) % r.width = j := by
+    rw [Nat.add_comm, Nat.add_mul_mod_self_right, Nat.mod_eq_of_lt h2]
+  rw [e1, e2]
+
+/-- `used_cells()` enumerates exactly the non-default cells among `cells()`, in the same order -/
+theorem usedCells_spec [DecidableEq α] (r : Rng α) :
+    usedCells r = (cells r).filter (fun c => decide (c.2.2 ≠ default)) ∧
+    (usedCells r).Sublist (cells r) ∧
+    ∀ c, c ∈ usedCells r ↔ c ∈ cells r ∧ c.2.2 ≠ default := by
+  refine ⟨rfl, List.filter_sublist, fun c => ?_⟩
+  unfold usedCells
+  rw [List.mem_filter]; simp
+
+/-! ## non-vacuity: concrete instances (values are `Nat`, default `0`) -/
+
+/-- a 2×2 range satisfies the invariant -/
+example : Inv (⟨3, 4, 4, 5, [1, 2, 3, 4]⟩ : Rng Nat) := mkInv _ _ _ _ _ (by decide) (by decide) rfl
+
+/-- the D01 witness after the fix: growing downwards only yields 8 × 3 = 24 cells -/
+example : (run [Op.new 0 0 5 2, Op.setValue 7 1 (3 : Nat)]).isOk = true ∧
+    ∀ r, run [Op.new 0 0 5 2, Op.setValue 7 1 (3 : Nat)] = .ok r →
+      r.inner.length = 24 ∧ r.height = 8 ∧ r.width = 3 ∧ r.valAt 7 1 = 3 := by
+  refine ⟨rfl, fun r h => ?_⟩
+  cases h; exact ⟨rfl, rfl, rfl, rfl⟩
+
+/-- growth in both directions, then a partially overlapping window -/
+example : run [Op.new 1 1 2 2, Op.setValue 1 1 (7 : Nat), Op.setValue 3 4 9, Op.range 0 0 1 2] =
+    .ok ⟨0, 0, 1, 2, [0, 0, 0, 0, 7, 0]⟩ := rfl
+
+example : setValue (⟨1, 1, 2, 2, [7, 0, 0, 0]⟩ : Rng Nat) 3 4 9 =
+    .ok ⟨1, 1, 3, 4, [7, 0, 0, 0, 0, 0, 0, 0, 0, 0, 0, 9]⟩ := rfl
+
+/-- `from_sparse`: duplicates (last writer wins) and a gap -/
+example : fromSparse [(2, 5, (1 : Nat)), (2, 3, 2), (3, 5, 3), (3, 5, 4)] =
+    .ok ⟨2, 3, 3, 5, [2, 0, 1, 0, 0, 4]⟩ := rfl
+
+example : lastAt [(2, 5, (1 : Nat)), (2, 3, 2), (3, 5, 3), (3, 5, 4)] 3 5 = some 4 := rfl
+
+/-- the preconditions are decidable and satisfiable; a history that meets them (`Safe`) exists -/
+example : Pre (⟨1, 1, 2, 2, [7, 0, 0, 0]⟩ : Rng Nat) (Op.setValue 3 4 9) := by decide
+example : sparsePre [(2, 5, (1 : Nat)), (2, 3, 2), (3, 5, 3), (3, 5, 4)] := by decide
+example : Safe (empty : Rng Nat) [Op.new 0 0 5 2, Op.setValue 7 1 3, Op.range 1 1 8 8] := by
+  refine ⟨by decide, fun r1 h1 => ?_⟩
+  cases h1
+  refine ⟨by decide, fun r2 h2 => ?_⟩
+  cases h2
+  exact ⟨by decide, fun _ _ => trivial⟩
+
+/-- … and violated preconditions do panic (the hypotheses of `step_ok` are not redundant) -/
+example : setValue (empty : Rng Nat) 0 0 1 = .panic "empty range" := rfl
+example : setValue (⟨1, 1, 2, 2, [7, 0, 0, 0]⟩ : Rng Nat) 0 1 9 = .panic "absolute_position out of bounds" := rfl
+example : (new 0 0 65535 65535 : Res (Rng Nat)) = .panic "u32 mul overflow" := by
+  unfold new; rfl
+example : fromSparse [(2, 0, (1 : Nat)), (1, 0, 2), (3, 0, 3)] = .panic "u32 sub overflow" := rfl
+
+/-- iterators and accessors on a concrete range -/
+example : rows (⟨3, 4, 4, 6, [1, 0, 3, 4, 5, 0]⟩ : Rng Nat) = [[1, 0, 3], [4, 5, 0]] := rfl
+example : cells (⟨3, 4, 4, 6, [1, 0, 3, 4, 5, 0]⟩ : Rng Nat) =
+    [(0, 0, 1), (0, 1, 0), (0, 2, 3), (1, 0, 4), (1, 1, 5), (1, 2, 0)] := rfl
+example : usedCells (⟨3, 4, 4, 6, [1, 0, 3, 4, 5, 0]⟩ : Rng Nat) =
+    [(0, 0, 1), (0, 2, 3), (1, 0, 4), (1, 1, 5)] := by decide
+example : getValue (⟨3, 4, 4, 6, [1, 0, 3, 4, 5, 0]⟩ : Rng Nat) 4 5 = some 5 ∧
+    get (⟨3, 4, 4, 6, [1, 0, 3, 4, 5, 0]⟩ : Rng Nat) 1 1 = some 5 ∧
+    index (⟨3, 4, 4, 6, [1, 0, 3, 4, 5, 0]⟩ : Rng Nat) 1 1 = .ok 5 ∧
+    getValue (⟨3, 4, 4, 6, [1, 0, 3, 4, 5, 0]⟩ : Rng Nat) 5 5 = none := ⟨rfl, rfl, rfl, rfl⟩
+
 end Range
